@@ -46,6 +46,7 @@ Act ==
                              /\ mem' = [p \in Projects |-> <<>>] /\ memRead' = [p \in Projects |-> FALSE]
                              /\ UNCHANGED <<ws, cacheEx, cacheF, strays, locks, tainted>> /\ Obs("restart", <<>>, "ok")
     [] E.op = "stray"     -> AddStray(A(1), A(2))
+    [] E.op = "mkdir_empty" -> MkDir(A(1), A(2))
     [] E.op = "corrupt"   -> Corrupt(A(1), A(2), A(3))
     [] E.op = "corrupt_other" -> CorruptOther(A(1), A(2), A(3))
     [] E.op = "rename_dir" -> RenameDir(A(1), A(2), A(3))
